@@ -239,7 +239,7 @@ Fixpoint pending_from_events (fuel : nat) (events : list ev) (location reference
     | [] => PErr (Err E_Eof location)
     | e :: _ =>
       match e with
-      | EScalar _ _ _ _ _ l => if ev_merge_nullish e then POk [] x else PErr (Err E_MergeValueNotMapOrSeqOfMaps l)
+      | EScalar _ _ _ _ _ l => if ev_merge_nullish e then POk [] x else PErr (attach_alias_locations (Err E_MergeValueNotMapOrSeqOfMaps l) reference l)
       | EMapStart _ _ => collect_entries f x reference
       | ESeqStart _ _ _ _ =>
         match src_next x with
@@ -291,7 +291,7 @@ with pending_from_live (fuel : nat) (x : src) (merge_ref : loc) : pres :=
           | NErr e' => PErr e'
           | NSome _ x'' | NNone x'' => POk [] x''
           end
-        else PErr (Err E_MergeValueNotMapOrSeqOfMaps l)
+        else PErr (attach_alias_locations (Err E_MergeValueNotMapOrSeqOfMaps l) merge_ref l)
       | EMapStart _ _ =>
         match capture_node f x' with
         | CErr e' => PErr e'
